@@ -3,6 +3,7 @@ package props
 import (
 	"crypto"
 	"crypto/x509"
+	"encoding/base64"
 	"encoding/xml"
 	"fmt"
 	"math/rand/v2"
@@ -58,6 +59,9 @@ func spSnapshot(sp *saml2.SAMLServiceProvider) string {
 	if c, err := sp.GetEncryptionCertBytes(); err == nil {
 		fmt.Fprintf(&b, "enccert=%x;", mon.Hash64(string(c)))
 	}
+	if ks, ok := sp.SPKeyStore.(*RSAKeyStore); ok && ks.Raw != nil {
+		fmt.Fprintf(&b, "bare-key-precomputed=%v/%d;", ks.Raw.Precomputed.Dp != nil, len(ks.Raw.Precomputed.CRTValues))
+	}
 	fmt.Fprintf(&b, "clock=%d;", sp.Clock.Now().UnixNano())
 	return b.String()
 }
@@ -78,6 +82,7 @@ type c17Fixture struct {
 	ops     []c17op
 	want    []string
 	needsSC []bool // operation reaches the signing context
+	bareKey bool   // the encryption key store hands out a key without precomputed values
 }
 
 func digestResponse(sp *saml2.SAMLServiceProvider, enc string) string {
@@ -100,12 +105,15 @@ func newC17SP(f *c17Fixture) *KeyedSP {
 	ksp.SP.SignAuthnRequests = true
 	ksp.SP.SignAuthnRequestsAlgorithm = f.alg.URI
 	ksp.SP.SignAuthnRequestsCanonicalizer = f.canon.Obj
+	if ks := ksp.Fields["encF"]; ks != nil && f.bareKey {
+		ks.Raw = BareRSA(ks.C.Key.RSA())
+	}
 	return ksp
 }
 
 func buildC17Fixture(r *rand.Rand, now time.Time, kc KeyCfg) *c17Fixture {
 	w := NewWorld(now)
-	f := &c17Fixture{now: now, kc: kc, signer: w.IdP[2]}
+	f := &c17Fixture{now: now, kc: kc, signer: w.IdP[2], bareKey: r.IntN(2) == 0}
 	probe := NewKeyedSP(now, kc)
 	wantCert := probe.Certs[probe.WantSign]
 	algs := SigAlgsFor(wantCert.Key)
@@ -253,6 +261,60 @@ func buildC17Fixture(r *rand.Rand, now time.Time, kc KeyCfg) *c17Fixture {
 			return fmt.Sprintf("bad-pages:%d:%d", len(t1), len(t2))
 		}
 		return "pages-ok"
+	})
+	// one caller-assembled document (etree's default write settings, text and attribute values whose escaping depends
+	// on those settings) handed to the binding helpers by every goroutine: they only read it
+	shared := customDoc(r)
+	shared.Root().CreateAttr("Odd", "a>b 'c' \"d\"\te")
+	shared.Root().CreateElement("Quote").SetText("it's \"quoted\" > here")
+	sharedText, _ := shared.WriteToString()
+	sharedSettings := fmt.Sprintf("%+v", shared.WriteSettings)
+	add("SharedDocument:redirect", true, func(sp *saml2.SAMLServiceProvider) string {
+		out, err := sp.BuildAuthURLFromDocument("rs", shared)
+		if err != nil {
+			return "error:" + err.Error()
+		}
+		ksp := &KeyedSP{Certs: map[string]*sim.Cert{"w": wantCert}, WantSign: "w"}
+		if k, m, _ := checkRedirectURL(out, sp.IdentityProviderSSOURL, "rs", sharedText, false, ksp, hash); k != "" {
+			return "bad-url:" + k + ":" + m
+		}
+		out, err = sp.BuildLogoutURLRedirect("rs", shared)
+		if err != nil {
+			return "error:" + err.Error()
+		}
+		if k, m, _ := checkRedirectURL(out, sp.IdentityProviderSLOURL, "rs", sharedText, true, ksp, hash); k != "" {
+			return "bad-url:" + k + ":" + m
+		}
+		return "url-ok"
+	})
+	add("SharedDocument:post", false, func(sp *saml2.SAMLServiceProvider) string {
+		for i, fn := range []func(string, *etree.Document) ([]byte, error){sp.BuildAuthBodyPostFromDocument, sp.BuildLogoutBodyPostFromDocument, sp.BuildLogoutResponseBodyPostFromDocument} {
+			b, err := fn("rs", shared)
+			if err != nil {
+				return "error:" + err.Error()
+			}
+			toks, terr := tokenize(b)
+			if terr != nil {
+				return "bad-page"
+			}
+			found := false
+			for _, t := range toks {
+				if t.tag != "input" || !(strings.Contains(t.attrs, `name="SAMLRequest"`) || strings.Contains(t.attrs, `name="SAMLResponse"`)) {
+					continue
+				}
+				if !strings.Contains(t.attrs, `value="`+base64.StdEncoding.EncodeToString([]byte(sharedText))+`"`) {
+					return fmt.Sprintf("post-field-differs:%d", i)
+				}
+				found = true
+			}
+			if !found {
+				return fmt.Sprintf("post-field-missing:%d", i)
+			}
+		}
+		if now := fmt.Sprintf("%+v", shared.WriteSettings); now != sharedSettings {
+			return "shared-document-settings-changed:" + now
+		}
+		return "post-ok"
 	})
 	add("GetCertBytes", false, func(sp *saml2.SAMLServiceProvider) string {
 		a, e1 := sp.GetSigningCertBytes()
@@ -546,6 +608,10 @@ func runC17(c *mon.Ctx) {
 		for _, oi := range order {
 			a := f.ops[oi].run(sp)
 			b := f.ops[oi].run(sp)
+			if strings.HasPrefix(f.ops[oi].name, "SharedDocument") && a != "url-ok" && a != "post-ok" {
+				cs.Violation("shared-document:"+strings.SplitN(a, ":", 2)[0], "%s on a caller-assembled document: %s", f.ops[oi].name, trunc(a, 300))
+				break
+			}
 			if a != b || a != f.want[oi] {
 				cs.Violation("repeat-differs", "%s: first %q, again %q, on a private SP %q", f.ops[oi].name, trunc(a, 200), trunc(b, 200), trunc(f.want[oi], 200))
 				break
